@@ -280,6 +280,15 @@ template <int C, int Rw, int C2, class T, glm::qualifier Q> static void t_mul(pb
 			glm::mat<C, Rw, T, Q> X = toG<C, Rw, T, Q>(k.a);
 			glm::mat<C, Rw, T, Q>* p = &(X *= toG<C2, C, T, Q>(k.b));
 			mul_finish(c, tqn<T, Q>(), k, fromG(X), true, p == &X);
+			// squaring in place: the right operand is the object itself, m *= m must equal m * m (an implementation that updates
+			// *this while still reading the operand would not)
+			glm::mat<C, Rw, T, Q> S1 = toG<C, Rw, T, Q>(k.a), S2 = S1 * S1;
+			S1 *= S1;
+			Mx<T> g1 = fromG(S1), g2 = fromG(S2);
+			for (int i = 0; i < C; ++i) for (int r = 0; r < Rw; ++r) if (!eqb(g1.e[i][r], g2.e[i][r])) {
+				c.failk("mat*=mat/aliased-operand/" + shp(C, Rw) + "/" + tqn<T, Q>(), "m *= m differs from m * m at [%d][%d]: %s vs %s; m=%s", i, r, rl::num(g1.e[i][r]).c_str(), rl::num(g2.e[i][r]).c_str(), rl::str(k.a).c_str());
+				i = C; break;
+			}
 		} else skipped(c);
 	}
 }
@@ -457,6 +466,29 @@ template <int C, int Rw, class T, glm::qualifier Q> static void t_elem(pbt::Ctx&
 		glm::mat<C, Rw, U, Q> BU(U(0));
 		for (int i = 0; i < C; ++i) for (int r = 0; r < Rw; ++r) BU[i][r] = (U)k.b.e[i][r];
 		COP(E_UADD_S, x += su) COP(E_USUB_S, x -= su) COP(E_UMUL_S, x *= su) COP(E_UDIV_S, x /= sdu) COP(E_UADD_M, x += BU) COP(E_USUB_M, x -= BU) COP(E_UASSIGN, x = BU)
+	}
+	// the same compound operators with an *unsigned* other type (m -= 3u, m -= umat): the operand must be converted to T before anything
+	// is done to it (negating it first wraps). Only when the scalar and every entry of B are non-negative (exact in unsigned).
+	if constexpr (HAVE(K_ELEM, SI, E_USUB_S) && HAVE(K_ELEM, SI, E_USUB_M) && HAVE(K_ELEM, SI, E_UADD_S) && !std::is_same<T, bool>::value && sizeof(T) >= 4) {
+		bool nonneg = k.ucls && !(s < T(0));
+		for (int i = 0; i < C && nonneg; ++i) for (int r = 0; r < Rw; ++r) if (k.b.e[i][r] < T(0)) nonneg = false;
+		if (nonneg) {
+			const unsigned su2 = (unsigned)s;
+			glm::mat<C, Rw, unsigned, Q> BU2(0u);
+			for (int i = 0; i < C; ++i) for (int r = 0; r < Rw; ++r) BU2[i][r] = (unsigned)k.b.e[i][r];
+			auto chk = [&](const M& got, const Mx<T>& want, const char* opn) {
+				Mx<T> gm = fromG(got);
+				for (int i = 0; i < C; ++i) for (int r = 0; r < Rw; ++r) if (!eqv(gm.e[i][r], want.e[i][r])) {
+					c.failk(std::string(opn) + "(unsigned)/" + shp(C, Rw) + "/" + tqn<T, Q>(), "%s with an unsigned operand: element [%d][%d] = %s, expected %s; A=%s s=%u", opn, i, r, rl::num(gm.e[i][r]).c_str(), rl::num(want.e[i][r]).c_str(), rl::str(k.a).c_str(), su2);
+					return;
+				}
+			};
+			{ M x = A; x -= su2; chk(x, k.want[E_USUB_S], "m-=s"); }
+			{ M x = A; x += su2; chk(x, k.want[E_UADD_S], "m+=s"); }
+			{ M x = A; x -= BU2; chk(x, k.want[E_USUB_M], "m-=m"); }
+			{ M x = A; x += BU2; chk(x, k.want[E_UADD_M], "m+=m"); }
+			c.cls("compound operators with an unsigned operand");
+		}
 	}
 	if constexpr (HAVE(K_ELEM, SI, E_EQ)) {
 		M E = toG<C, Rw, T, Q>(k.a), F = E;
